@@ -1677,10 +1677,15 @@ var bndCtx *Ctx
 type bndMem struct {
 	mutableField map[string]bool // "pkg.T.i": some store to the field goes through a non-local object, or its address escapes
 	wholeStored  map[string]bool // named struct types assigned as a whole through a pointer
-	mutableGlob  map[*ssa.Global]bool
-	repsAll      map[*ssa.Function]map[string][]ssa.Value
-	reps         map[*ssa.Function]map[string]ssa.Value
-	local        map[ssa.Value]ssa.Value // re-reads of a mutable field with no write in between
+	// the same two, counting only the functions under Eval: what an evaluation reads twice is
+	// unchanged in between unless code of the evaluation itself writes it (the parser's writes to
+	// the tree it builds do not count for the evaluator's reads of the finished tree)
+	mutableFieldEval map[string]bool
+	wholeStoredEval  map[string]bool
+	mutableGlob      map[*ssa.Global]bool
+	repsAll          map[*ssa.Function]map[string][]ssa.Value
+	reps             map[*ssa.Function]map[string]ssa.Value
+	local            map[ssa.Value]ssa.Value // re-reads of a mutable field with no write in between
 }
 
 func bndFieldKey(fa *ssa.FieldAddr) (string, string) {
@@ -1712,9 +1717,16 @@ func (c *Ctx) bndMemory() *bndMem {
 	if c.bmem != nil {
 		return c.bmem
 	}
-	m := &bndMem{mutableField: map[string]bool{}, wholeStored: map[string]bool{}, mutableGlob: map[*ssa.Global]bool{}, reps: map[*ssa.Function]map[string]ssa.Value{}, local: map[ssa.Value]ssa.Value{}}
+	m := &bndMem{mutableField: map[string]bool{}, wholeStored: map[string]bool{}, mutableFieldEval: map[string]bool{}, wholeStoredEval: map[string]bool{}, mutableGlob: map[*ssa.Global]bool{}, reps: map[*ssa.Function]map[string]ssa.Value{}, local: map[ssa.Value]ssa.Value{}}
 	c.bmem = m
 	for _, f := range c.G.Funcs {
+		inEval := c.REval != nil && c.REval.Set[f]
+		markField := func(k string) {
+			m.mutableField[k] = true
+			if inEval {
+				m.mutableFieldEval[k] = true
+			}
+		}
 		for _, ins := range instrsIn(f) {
 			switch x := ins.(type) {
 			case *ssa.FieldAddr:
@@ -1725,18 +1737,20 @@ func (c *Ctx) bndMemory() *bndMem {
 						case *ssa.UnOp, *ssa.DebugRef:
 						case *ssa.Store:
 							if r.Addr != ssa.Value(x) {
-								m.mutableField[k] = true // the address itself is stored
-							} else if _, local := x.X.(*ssa.Alloc); !local {
-								m.mutableField[k] = true
+								markField(k) // the address itself is stored
+							} else if !alwaysFreshAlloc(x.X, 0) {
+								// (a store into an object this function has just allocated, itself or
+								// through a constructor, is part of building it)
+								markField(k)
 							}
 						case *ssa.FieldAddr, *ssa.IndexAddr:
 							// nested: handled at the nested instruction for struct fields; an
 							// element address of an array field may be written
 							if _, isIdx := r.(*ssa.IndexAddr); isIdx {
-								m.mutableField[k] = true
+								markField(k)
 							}
 						default:
-							m.mutableField[k] = true
+							markField(k)
 						}
 					}
 				}
@@ -1744,6 +1758,9 @@ func (c *Ctx) bndMemory() *bndMem {
 				if st, ok := x.Val.Type().Underlying().(*types.Struct); ok && st != nil {
 					if _, local := x.Addr.(*ssa.Alloc); !local {
 						m.wholeStored[types.TypeString(x.Val.Type(), nil)] = true
+						if inEval {
+							m.wholeStoredEval[types.TypeString(x.Val.Type(), nil)] = true
+						}
 					}
 				}
 				if g := globalRoot(x.Addr); g != nil && !isInitFn(f) {
@@ -1785,7 +1802,11 @@ func (c *Ctx) memKey(v ssa.Value, depth int) string {
 				}
 				return ""
 			}
-			if k == "" || m.mutableField[k] || m.wholeStored[tn] {
+			mutF, mutT := m.mutableField[k], m.wholeStored[tn]
+			if pf := x.Parent(); pf != nil && c.REval != nil && c.REval.Set[pf] && !(c.RCompile != nil && c.RCompile.Set[pf]) && !(c.RReg != nil && c.RReg.Set[pf]) {
+				mutF, mutT = m.mutableFieldEval[k], m.wholeStoredEval[tn]
+			}
+			if k == "" || mutF || mutT {
 				return ""
 			}
 			if g := globalRoot(a.X); g != nil {
@@ -2436,7 +2457,28 @@ func dominatedByCallTo(ins ssa.Instruction, name string) bool {
 	return false
 }
 
+// dominatedByCallTo1: a call of the function called name precedes ins in its function. The name
+// may carry a trait, "name|calls:helper": when no function of that name exists any more (it was
+// renamed), a method of the same receiver type that calls the helper itself (the constructor of
+// the error by which the named function rejects) stands for it.
 func dominatedByCallTo1(ins ssa.Instruction, name string) bool {
+	name, trait, _ := strings.Cut(name, "|calls:")
+	gone := trait != "" && bndCtx != nil && !bndCtx.fnKeys()[name]
+	recv := ""
+	if i := strings.Index(name, ")."); i > 0 {
+		recv = name[:i+2]
+	}
+	hasTrait := func(g *ssa.Function) bool {
+		if recv == "" || !strings.HasPrefix(shortFn(g), recv) {
+			return false
+		}
+		for _, ci := range callsIn(g) {
+			if h := ci.Common().StaticCallee(); h != nil && shortFn(h) == trait {
+				return true
+			}
+		}
+		return false
+	}
 	f := ins.Parent()
 	for _, b := range f.Blocks {
 		if b != ins.Block() && !b.Dominates(ins.Block()) {
@@ -2447,7 +2489,7 @@ func dominatedByCallTo1(ins ssa.Instruction, name string) bool {
 				break
 			}
 			if call, ok := i.(*ssa.Call); ok {
-				if callee := call.Call.StaticCallee(); callee != nil && shortFn(callee) == name {
+				if callee := call.Call.StaticCallee(); callee != nil && (shortFn(callee) == name || gone && hasTrait(callee)) {
 					return true
 				}
 			}
